@@ -27,6 +27,26 @@ import oracle_graph as og
 import corr_graph as cg
 
 
+def dup_names(mb, rng):
+  """the same model with ONE tensor of a later subgraph renamed to the name of a
+  tensor of subgraph 0 (a layer exported under two signatures): outside the
+  library's input contract — it must be refused, not mis-transformed"""
+  m = FU.read_model_from_bytearray(bytearray(mb))
+  if len(m.subgraphs) < 2:
+    return None
+  g0 = m.subgraphs[0]
+  gj = m.subgraphs[rng.randrange(1, len(m.subgraphs))]
+  is_c = lambda t: m.buffers[t.buffer].data is not None and len(m.buffers[t.buffer].data) > 0
+  pairs = [(a, b) for a in g0.tensors for b in gj.tensors
+           if a.type == 0 and b.type == 0 and is_c(a) == is_c(b)]
+  if not pairs:
+    return None
+  same = [(a, b) for a, b in pairs if list(a.shape) == list(b.shape)]
+  a, b = rng.choice(same or pairs)
+  b.name = a.name
+  return bytes(FU.convert_object_to_bytearray(m))
+
+
 def extract(mb, i):
   m = copy.deepcopy(og.read(mb))
   m.subgraphs = [m.subgraphs[i]]
@@ -100,6 +120,12 @@ def main():
   samples = []
   for k in range(n_models):
     mb, info = gg.gen_model(rng, n_subgraphs=rng.choice([2, 2, 3]), max_ops=rng.choice([3, 5, 8]))
+    dup = None
+    if k % 8 == 6:
+      dup = dup_names(mb, rng)
+      if dup is not None:
+        mb = dup
+        dist['duplicate_names_across_subgraphs'] += 1
     m_in = og.read(mb)
     for trial in range(2):
       ship_name, rules = None, None
@@ -129,6 +155,10 @@ def main():
           alone.append((o, None))
         except Exception as e:  # pylint: disable=broad-except
           alone.append((None, e))
+      if err_multi is not None and dup is not None and isinstance(err_multi, ValueError) and \
+          'is not unique in the model' in str(err_multi):
+        dist['duplicate_names_refused'] += 1     # the documented input contract
+        continue
       if err_multi is not None:
         kind = cg.classify_raise(err_multi, m_in)
         dist['multi_raises:' + kind] += 1
